@@ -213,7 +213,7 @@ func (m *Manager) onEIOPacket(packets ...*eioparser.Packet) {
 		case eioparser.PacketTypeMessage:
 			err := m.parser.Add(packet.Data, m.onParserFinish)
 			if err != nil {
-				go m.onClose(ReasonParseError, err)
+				go m.onClose(ReasonParseError, err, m.closeGeneration())
 				return
 			}
 		case eioparser.PacketTypePing:
@@ -304,10 +304,10 @@ func (m *Manager) cleanup() {
 	m.resetParser()
 }
 
-func (m *Manager) onClose(reason Reason, err error) {
+// closeGen is the close generation under which the connection that was lost had been made: the reconnection that
+// follows belongs to that connection, and a `Close` since then stops it (see `reconnect`), whatever was opened afterwards.
+func (m *Manager) onClose(reason Reason, err error, closeGen uint64) {
 	m.debug.Log("Closed. Reason", reason)
-	// (Read before `skipReconnect` is looked at, see `Close`.)
-	closeGen := m.closeGeneration()
 
 	m.cleanup()
 	m.backoff.reset()
@@ -340,7 +340,7 @@ func (m *Manager) Close() {
 	m.closeGen++
 	m.stateMu.Unlock()
 
-	m.onClose(ReasonForcedClose, nil)
+	m.onClose(ReasonForcedClose, nil, m.closeGeneration())
 
 	m.eioMu.RLock()
 	defer m.eioMu.RUnlock()
